@@ -107,12 +107,13 @@ def check(pid, tier, args):
         run.cov["loads_observed"] = sum(len(json.loads(l)["outs"]) for l in lines)
     for n, pr in rejects[:20]:
         ev = json.loads(lines[n])
+        what = describe(pid, ev, pr)
         if "outs" in ev:
             bad = [ev["outs"][i - 1] for i in pr.get("detail", [])]
             ev["outs"] = [ev["outs"][0]] + bad[:10]
         run.violation({"finding_key": None, "event": ev, "trace_spec": "TraceLoad.tla Prop=" + pid,
                        "reproduce": "bin/check %s %s (VERIF_SEED=%d)" % (pid, tier, vlib.seed())},
-                      describe(pid, ev, pr))
+                      what)
     run.cov["bounds"] = {"ReaderStack": "MaxN=9 BUF=4 programs<=3 requests over 7 request kinds",
                          "AutoChain": "MaxN=7 BUF=3 6 programs per loader, winner 0..3",
                          "tier": tier}
